@@ -3,7 +3,7 @@
 # the checks named in its meta.json "caught_by" (or the check of its property) with VERIF_REPO=<worktree>; one line per change.
 tier=${1:-quick}; filter=${2:-}
 cd "$(dirname "$0")/.."
-wt=/tmp/vp-matrix-wt
+wt=/tmp/vp-matrix-wt${filter}
 git -C /repo worktree remove --force $wt 2>/dev/null
 git -C /repo worktree add -q --detach $wt HEAD || exit 1
 for d in seeded/${filter}*/; do
